@@ -4,6 +4,7 @@ import (
 	"fmt"
 	"os"
 	"strings"
+	"unicode/utf8"
 
 	"github.com/hattya/go.sh/ast"
 	"github.com/hattya/go.sh/interp"
@@ -80,6 +81,59 @@ func patEscape(s string) string {
 	return b.String()
 }
 
+// escapedForm reports whether p is s with a backslash before some of its characters, among them every ? * [ and backslash.
+func escapedForm(p, s string) bool {
+	var b strings.Builder
+	for i := 0; i < len(p); i++ {
+		switch p[i] {
+		case '\\':
+			i++
+			if i == len(p) {
+				return false
+			}
+		case '?', '*', '[':
+			return false
+		}
+		b.WriteByte(p[i])
+	}
+	return b.String() == s
+}
+
+// bracketCheck expands the bracket expression open + quoted s + "z]" in Pattern mode and matches it against single characters: it must
+// match exactly the characters of set (the quoted characters stand for themselves: no range, no negation, no early end).
+func bracketCheck(open, quoted, s string, set string) string {
+	src := "x " + open + quoted + "z]\n"
+	cmds, _, err := parser.ParseCommands(nil, "t", src)
+	if err != nil || len(cmds) != 1 {
+		return "" // (the quoting of s glued to the bracket is not a word of its own: nothing to check)
+	}
+	c, k := cmds[0].(*ast.Cmd)
+	if !k {
+		return ""
+	}
+	sc, k := c.Expr.(*ast.SimpleCmd)
+	if !k || len(sc.Args) != 2 {
+		return ""
+	}
+	env := newEnv(hx("sh"), "0")
+	got, err := env.Expand(sc.Args[1], interp.Pattern)
+	if err != nil || len(got) != 1 {
+		return "FAIL:bracket-expand:" + hx(src)
+	}
+	for _, r := range "abmz-!^]\\[*?.:=\n" + s {
+		ch := string(r)
+		want := strings.ContainsRune(set, r)
+		m, err := pattern.Match([]string{got[0]}, pattern.Prefix|pattern.Largest, ch)
+		if err != nil && err != pattern.NoMatch {
+			return "FAIL:bracket-error:" + hx(src) + ":" + hx(got[0])
+		}
+		if (err == nil && m == ch) != want {
+			return "FAIL:bracket-member:" + hx(src) + ":" + hx(got[0]) + ":" + hx(ch)
+		}
+	}
+	return ""
+}
+
 // case: s(hex) \t dir-with-files(0|1)
 func quoteH(line string) string {
 	f := strings.Split(line, "\t")
@@ -99,6 +153,20 @@ func quoteH(line string) string {
 		}
 	}
 	styles := map[string]string{"single": quoteSingle(s), "double": quoteDouble(s), "backslash": quoteBackslash(s), "mixed": quoteMixed(s)}
+	// quoted text inside an unquoted bracket expression of a pattern: its characters are members, nothing else
+	if utf8.ValidString(s) && !strings.ContainsAny(s, "\x00") {
+		for _, name := range []string{"single", "double", "backslash", "mixed"} {
+			if s == "" && name == "backslash" {
+				continue
+			}
+			if r := bracketCheck("[a", styles[name], s, "az"+s); r != "" {
+				return r + ":" + name
+			}
+			if r := bracketCheck("[", styles[name], s, "z"+s); r != "" {
+				return r + ":" + name + ":first"
+			}
+		}
+	}
 	for _, name := range []string{"single", "double", "backslash", "mixed"} {
 		src := "x " + styles[name] + "\n"
 		cmds, _, err := parser.ParseCommands(nil, "t", src)
@@ -131,11 +199,7 @@ func quoteH(line string) string {
 					if err != nil {
 						return "FAIL:expand-error" + t2
 					}
-					want := s
-					if mode&interp.Pattern != 0 {
-						want = patEscape(s)
-					}
-					if len(got) != 1 || got[0] != want {
+					if len(got) != 1 || (mode&interp.Pattern == 0 && got[0] != s) || (mode&interp.Pattern != 0 && !escapedForm(got[0], s)) {
 						return "FAIL:fields" + t2 + ":" + hx(strings.Join(got, "\x00"))
 					}
 					if mode&interp.Pattern != 0 {
